@@ -216,8 +216,17 @@ def args_passthrough(fn: ast.FunctionDef) -> list[str]:
         f = ast.unparse(e.func.value)
         return (f == "super()" and args == [key, value]) or (f == "object" and args == [me, key, value])
 
+    # a local bound ONCE, at the top level of the body, to `self._arguments` is the same dict object (the only statement that
+    # re-binds the attribute is the raw __setattr__ arm, which returns): `args = self._arguments; ... args[key] = value`.
+    # Only AFTER the raw arms: reading self._arguments before them fails while the constructor creates the attribute.
+    counts = c06._binding_counts(fn)
+    aliases = {st.targets[0].id for st in body
+               if isinstance(st, ast.Assign) and len(st.targets) == 1 and isinstance(st.targets[0], ast.Name)
+               and ast.unparse(st.value) == f"{me}._arguments" and counts.get(st.targets[0].id) == 1
+               and st.targets[0].id not in (me, key, value)}
+
     def store(x):
-        return ast.unparse(x) == f"{me}._arguments"
+        return ast.unparse(x) == f"{me}._arguments" or (isinstance(x, ast.Name) and x.id in aliases)
 
     names: list[str] = []
     i = 0
@@ -243,7 +252,8 @@ def args_passthrough(fn: ast.FunctionDef) -> list[str]:
                 i += 1
                 continue
         fail(t, f"{where}: names handed to the unmodified __setattr__ are not a list of constants")
-    rest = body[i:]
+    rest = [st for st in body[i:] if not (isinstance(st, ast.Assign) and len(st.targets) == 1
+                                          and isinstance(st.targets[0], ast.Name) and st.targets[0].id in aliases)]
     # 2. `if key not in self._arguments: raise AttributeError(...)`   3. `self._arguments[key] = value`
     ok = (len(rest) == 2 and isinstance(rest[0], ast.If) and not rest[0].orelse and len(rest[0].body) == 1
           and isinstance(rest[0].body[0], ast.Raise) and "AttributeError" in ast.unparse(rest[0].body[0])
